@@ -301,7 +301,7 @@ func c31BuildCases() *c31Gen {
 		for bi, b := range c31AlphabetCore {
 			for pi, p := range p4k {
 				for di, decl := range []bool{true, false} {
-					if g.take(st(10, 1)) {
+					if g.take(st(12, 1)) {
 						g.add("E2-pair", 4096, p, decl, c31Leave(ai+bi+pi+di), []string{a, b})
 					}
 				}
@@ -326,7 +326,7 @@ func c31BuildCases() *c31Gen {
 			for ci, c := range c31AlphabetSmall {
 				for pi, p := range c31PartialClasses {
 					for di, decl := range []bool{true, false} {
-						if g.take(st(24, 1)) {
+						if g.take(st(30, 1)) {
 							g.add("E3-triple", 4096, p, decl, c31Leave(ai+bi+ci+pi+di), []string{a, b, c})
 						}
 					}
@@ -343,7 +343,7 @@ func c31BuildCases() *c31Gen {
 					if sz == 0 && decl {
 						continue // a declared size of 0 IS "unknown"
 					}
-					if g.take(st(3, 1)) {
+					if g.take(st(4, 1)) {
 						g.add(fmt.Sprintf("E4-size%d", sz), sz, p, decl, c31Leave(bi+pi+di), []string{b})
 					}
 				}
@@ -362,7 +362,7 @@ func c31BuildCases() *c31Gen {
 	}
 	// R: seeded random longer scripts (3..8 requests), random positions,
 	// random partial lengths/corruption
-	nrand := kit.Scale(800, 5000)
+	nrand := kit.Scale(600, 5000)
 	heads := []string{"ok", "ok", "ok", "ignore", "ignore", "w206z", "w206s", "416", "500", "503", "redirect", "drop", "404"}
 	faults := []string{"", "", "cl", "cl", "short", "chunk", "eof", "flip", "flip", "reset", "extra"}
 	for k := 0; k < nrand; k++ {
